@@ -140,7 +140,7 @@ class CppTypeUnit(codec.TypeUnit):
         g1, g2 = _Gen(), _Gen()
         g1.c2cpp(t, "(*c)", "o")
         g2.cpp2c(t, "o", "(*c)")
-        return (f"#include <{cpp_header(t)}>\n#include <{codec.header_of(t)}>\n#include <cstdint>\n#include <cstddef>\n"
+        return (f"#include <cassert>\n#include <{cpp_header(t)}>\n#include <{codec.header_of(t)}>\n#include <cstdint>\n#include <cstddef>\n"
                 f"static inline void c2cpp(const {cn}* c, {pn}& o) {{\n" + "\n".join(g1.lines) + "\n}\n"
                 f"static inline void cpp2c(const {pn}& o, {cn}* c) {{\n" + "\n".join(g2.lines) + "\n}\n"
                 f"extern \"C\" int8_t h_ser(const {cn}* c, uint8_t* b, size_t* s) {{\n"
